@@ -113,7 +113,13 @@ class Op(Term):
         raise AttributeError
 
     def __eq__(self, o):
-        return isinstance(o, Op) and o.op == self.op and o.args == self.args and o.kw == self.kw
+        if self is o:
+            return True
+        if not isinstance(o, Op) or o.op != self.op or len(o.args) != len(self.args):
+            return False
+        if self._h is not None and o._h is not None and self._h != o._h:
+            return False
+        return o.args == self.args and o.kw == self.kw
 
     def __hash__(self):
         if self._h is None:
